@@ -466,9 +466,12 @@ def check_s1(rec: Rec, c, nontrivial=True):
             bad("FailureNotice/exception/" + type(e).__name__, repr(e))
     # ---- decode with matching widths, two entry points
     params = s1.UnpackParams(T, c["usw"], c["uew"])
+    params_before = dict(vars(params))
     assert (not step or c["usw"] == sw) and (not fail or c["uew"] == ew)
     found = []  # (decoder, signature tail, observed, expected)
-    for dname in DECODERS:
+    # the caller's UnpackParams is ONE object used for every decode of a stream: both entry points, twice each, get the same
+    # object, and it must come back unchanged
+    for dname in DECODERS + DECODERS:
         try:
             if dname == "Service1Tm.unpack":
                 u = s1.Service1Tm.unpack(ref, params)
@@ -504,11 +507,27 @@ def check_s1(rec: Rec, c, nontrivial=True):
             rec.outcome("s1-roundtrip/%s/sub%d/equal=%s" % (dname, sub, u == tm))
         except Exception as e:
             found.append((dname, "inverse/exception/" + type(e).__name__, repr(e), None))
+    if dict(vars(params)) != params_before:
+        bad("decode/caller-UnpackParams-modified", dict(vars(params)), params_before)
+    # a report is a value: what the caller does to ITS objects after the report was built does not change the report
+    if route != "helper":
+        try:
+            if step_obj is not None:
+                step_obj.val = (step_obj.val + 1) % (1 << (8 * sw))
+            if fn is not None:
+                fn.code.val = (fn.code.val + 1) % (1 << (8 * ew))
+            vp.req_id = L.RequestId.unpack(bytes([rid4[0] ^ 0x01, rid4[1], rid4[2], rid4[3] ^ 0x01]))
+            later = bytes(tm.pack())
+            if later != ref:
+                bad("built-report-follows-the-callers-objects/" + s1_region(later, ref, T, sw, ew), short(later), short(ref))
+        except Exception as e:
+            bad("built-report-follows-the-callers-objects/exception/" + type(e).__name__, repr(e))
     # both entry points share the parsing code: the same failure through both is one defect site -> one signature
+    found = [f for i, f in enumerate(found) if f not in found[:i]]
     tails = D.dedupe([f[1] for f in found])
     for tail in tails:
         who = [f for f in found if f[1] == tail]
-        if len(who) == len(DECODERS):
+        if len({f[0] for f in who}) == len(DECODERS):
             bad(tail, {"decoders": list(DECODERS), "observed": who[0][2]}, who[0][3])
         else:
             bad(tail + "/only-through=" + who[0][0], who[0][2], who[0][3])
